@@ -528,4 +528,129 @@ theorem run_deliveries (cfg : Cfg C P) : ∀ (es : List (Ev P)) (st : State C), 
       have := run_deliveries cfg es _ g.inv sid sc hsc1 k r hm
       rw [this, memViewOf_stable (g.frame sc (List.mem_of_getElem? hsc)) k]
 
+/-! ### the scan's environment (EState / estep / erun) -/
+
+/-- the environment may change what `merge` / `wr` compute, not the shape of the table -/
+def SameShape {E : Type} (cfgOf : E → Cfg C P) : Prop := ∀ e e', (cfgOf e).nf = (cfgOf e').nf
+
+theorem inv_of_nf {cfg cfg' : Cfg C P} (h : cfg.nf = cfg'.nf) {st : State C} (i : Inv cfg st) :
+    Inv cfg' st :=
+  ⟨i.liveArr, i.liveBuf, fun n hn => h ▸ i.liveLen n hn, i.scanArr, i.scanBuf, i.sepArr, i.sepBuf⟩
+
+structure EInv {E : Type} (cfgOf : E → Cfg C P) (st : EState C E) : Prop where
+  inv : Inv (cfgOf st.cur) st.base
+  len : st.envs.length = st.base.scans.length
+
+structure EGood {E : Type} (cfgOf : E → Cfg C P) (st st' : EState C E) : Prop where
+  inv : EInv cfgOf st'
+  scans : ∃ ex, st'.base.scans = st.base.scans ++ ex
+  envs : ∃ ex, st'.envs = st.envs ++ ex
+  frame : ∀ sc ∈ st.base.scans, Stable st.base.heap st'.base.heap sc.nodes
+
+theorem egood_of_good {E : Type} {cfgOf : E → Cfg C P} {st : EState C E} (i : EInv cfgOf st)
+    {b : State C} (g : Good (cfgOf st.cur) st.base b) (hsc : b.scans = st.base.scans) :
+    EGood cfgOf st { st with base := b } :=
+  ⟨⟨g.inv, by simp [hsc, i.len]⟩, ⟨[], by simp [hsc]⟩, ⟨[], by simp⟩, g.frame⟩
+
+theorem ingestField_scans (cfg : Cfg C P) (st : State C) (p : P) (f : Nat) :
+    (ingestField cfg st p f).scans = st.scans := by
+  unfold ingestField
+  dsimp only
+  split
+  · split <;> rfl
+  · rfl
+
+theorem ingestFields_scans (cfg : Cfg C P) (p : P) : ∀ (fs : List Nat) (st : State C),
+    (fs.foldl (fun s f => ingestField cfg s p f) st).scans = st.scans
+  | [], _ => rfl
+  | f :: fs, st => by
+    simp only [List.foldl_cons]
+    rw [ingestFields_scans cfg p fs, ingestField_scans]
+
+theorem flush_scans (cfg : Cfg C P) (st : State C) (raw : Bool) : (flush cfg st raw).scans = st.scans := by
+  unfold flush
+  split <;> rfl
+
+theorem egood_estep {E : Type} (cfgOf : E → Cfg C P) (hs : SameShape cfgOf) (rr : E → E → E)
+    (st : EState C E) (i : EInv cfgOf st) (e : EEv P E) :
+    EGood cfgOf st (estep cfgOf .deep rr st e).1 := by
+  cases e with
+  | setEnv e' =>
+    exact ⟨⟨inv_of_nf (hs _ _) i.inv, i.len⟩, ⟨[], by simp [estep]⟩, ⟨[], by simp [estep]⟩,
+      fun sc _ => Stable.refl _ _⟩
+  | base ev =>
+    cases ev with
+    | ingest p => exact egood_of_good i (good_ingest _ _ i.inv p) (ingestFields_scans _ p _ _)
+    | ingestField p f => exact egood_of_good i (good_ingestField _ _ i.inv p f) (ingestField_scans _ _ p f)
+    | flush raw => exact egood_of_good i (good_flush _ _ i.inv raw) (flush_scans _ _ raw)
+    | scanStart =>
+      obtain ⟨g, hsc, _⟩ := good_scanStart (cfgOf st.cur) st.base i.inv
+      refine ⟨⟨g.inv, ?_⟩, g.scans, ⟨_, rfl⟩, g.frame⟩
+      simp only [estep, hsc, List.length_append, i.len, List.length_cons, List.length_nil]
+    | deliver sid k =>
+      have : (estep cfgOf .deep rr st (.base (.deliver sid k))).1 = st := by
+        simp only [estep]
+        split <;> rfl
+      rw [this]
+      exact ⟨i, ⟨[], by simp⟩, ⟨[], by simp⟩, fun sc _ => Stable.refl _ _⟩
+
+theorem einv_erun {E : Type} (cfgOf : E → Cfg C P) (hs : SameShape cfgOf) (rr : E → E → E) :
+    ∀ (es : List (EEv P E)) (st : EState C E), EInv cfgOf st → EInv cfgOf (erun cfgOf .deep rr st es).1
+  | [], st, i => i
+  | e :: es, st, i => by
+    simp only [erun]
+    exact einv_erun cfgOf hs rr es _ (egood_estep cfgOf hs rr st i e).inv
+
+theorem einv_init {E : Type} (cfgOf : E → Cfg C P) (e0 : E) : EInv cfgOf ({ cur := e0 } : EState C E) :=
+  ⟨inv_init _, rfl⟩
+
+/-- FRAME with environment: a delivery that takes everything from the captured record is the
+    row the scan would have read — under the captured environment — at the state in which we
+    start looking, whatever happens to heap, file, clock, fields in between -/
+theorem erun_deliveries {E : Type} (cfgOf : E → Cfg C P) (hs : SameShape cfgOf) :
+    ∀ (es : List (EEv P E)) (st : EState C E), EInv cfgOf st →
+    ∀ (sid : Nat) (sc : Scan C) (en : E), st.base.scans[sid]? = some sc → st.envs[sid]? = some en →
+    ∀ (k : Key) (r : Option (Row C)), (sid, k, r) ∈ (erun cfgOf .deep keepCaptured st es).2 →
+      r = deliverRow (cfgOf en) st.base sc k
+  | [], st, _, sid, sc, en, _, _, k, r, hm => by simp [erun] at hm
+  | e :: es, st, i, sid, sc, en, hsc, hen, k, r, hm => by
+    have g := egood_estep cfgOf hs keepCaptured st i e
+    simp only [erun, List.mem_append] at hm
+    rcases hm with hm | hm
+    · cases e with
+      | setEnv e' => simp [estep] at hm
+      | base ev =>
+        cases ev with
+        | deliver sid' k' =>
+          simp only [estep] at hm
+          split at hm
+          · rename_i sc' en' hsc' hen'
+            simp at hm
+            obtain ⟨rfl, rfl, rfl⟩ := hm
+            rw [hsc] at hsc'
+            rw [hen] at hen'
+            cases hsc'
+            cases hen'
+            rfl
+          · rename_i hnot
+            simp at hm
+            obtain ⟨rfl, rfl, rfl⟩ := hm
+            exact absurd hen (hnot sc en hsc)
+        | ingest p => simp [estep] at hm
+        | ingestField p f => simp [estep] at hm
+        | flush raw => simp [estep] at hm
+        | scanStart => simp [estep] at hm
+    · obtain ⟨ex, hex⟩ := g.scans
+      obtain ⟨ex', hex'⟩ := g.envs
+      have hsc1 : (estep cfgOf .deep keepCaptured st e).1.base.scans[sid]? = some sc := by
+        rw [hex, List.getElem?_append_left (List.getElem?_eq_some_iff.mp hsc).1]
+        exact hsc
+      have hen1 : (estep cfgOf .deep keepCaptured st e).1.envs[sid]? = some en := by
+        rw [hex', List.getElem?_append_left (List.getElem?_eq_some_iff.mp hen).1]
+        exact hen
+      have := erun_deliveries cfgOf hs es _ g.inv sid sc en hsc1 hen1 k r hm
+      rw [this]
+      unfold deliverRow
+      rw [memViewOf_stable (g.frame sc (List.mem_of_getElem? hsc)) k]
+
 end Zeno.Snap
